@@ -72,7 +72,7 @@ MALFORMED = ["", " ", "abc", "1.5.2", "--1", "1e", "e5", "1/", "/2", "1/2/3", "1
 
 
 def gen_cases(rng, tier):
-    n_user = 20 if tier == "thorough" else 4
+    n_user = 20 if tier == "thorough" else 8
     n_pre = 6 if tier == "thorough" else 2
     per = 80 if tier == "thorough" else 60
     cases = []
